@@ -92,6 +92,22 @@ def _linear(cfg, B):
     else:
         for i in range(n):
             B.ob('(I-dt.A/2).Q1=(I+dt.A/2).Q0[%d]' % i, 'eq', q1[i] - dt / 2 * Av(q1, i), q0[i] + dt / 2 * Av(q0, i))
+    if integ != 'gear':
+        # the same integrator object is used again with ANOTHER step size (what solve() does for the shortened step to a save
+        # time, and what a second solve() at another CFL does): nothing assembled for the first step may be reused
+        dt2 = B.pos('dt2', 0.05, 5.0)
+        q1 = B.vararray('r', n)          # from ANY state (generalises the state reached by the first step)
+        B.assume(sum((abs(v) for v in q1), zero) > 0)
+        f.data[0] = q1.copy()
+        solver.step(f, dt2)
+        q2 = [x for x in f.data[0]]
+        B.ob('second-step:time=t0+dt+dt2', 'eq', f.time, t0 + dt + dt2)
+        if integ in ('implicit', 'backwardeuler'):
+            for i in range(n):
+                B.ob('second-step-other-dt:(I-dt2.A).Q2=Q1[%d]' % i, 'eq', q2[i] - dt2 * Av(q2, i), q1[i])
+        else:
+            for i in range(n):
+                B.ob('second-step-other-dt:(I-dt2.A/2).Q2=(I+dt2.A/2).Q1[%d]' % i, 'eq', q2[i] - dt2 / 2 * Av(q2, i), q1[i] + dt2 / 2 * Av(q1, i))
     if integ == 'gear':
         solver.step(f, dt)
         q2 = [x for x in f.data[0]]
